@@ -50,7 +50,7 @@ Spec == Init /\ [][Next]_vars
 
 Outcome(cc) == Eval(RuleOf(cc), DataOf(cc))
 Scope(cc) == IF cc.form = 6 THEN <<>>
-             ELSE IF cc.form \in {8, 9} THEN (IF PinnedKey(K11[cc.ks[1]]) THEN <<"C12">> ELSE <<>>)
+             ELSE IF cc.form \in {8, 9} THEN (IF PinnedKeyOn(K11[cc.ks[1]], DataOf(cc)) THEN <<"C12">> ELSE <<>>)
              ELSE <<"C12">>
 
 \* ---- declarative reading of the statement, independent of the loops in Operators.tla
@@ -89,7 +89,7 @@ MissingSomeCounts ==
           ELSE SameValue(o.v, Arr(Dedup(SelectSeq2(Keys(c), d, 1), <<>>)))
 \* on the var corpus: a pinned key is reported missing exactly when var cannot find it
 AgreesWithVarCorpus ==
-  phase = "done" /\ c.form \in {8, 9} /\ PinnedKey(K11[c.ks[1]]) =>
+  phase = "done" /\ c.form \in {8, 9} /\ PinnedKeyOn(K11[c.ks[1]], DataOf(c)) =>
     LET k == K11[c.ks[1]]
         o == Outcome(c)
         absent == k.t # "z" /\ ~Lookup(DataOf(c), k).found
